@@ -31,10 +31,19 @@ func collInput(ops []collh.Op) map[string]interface{} {
 
 var collOpts = collh.RunOpts{Reference: true}
 
+// tagLiteralRepeatedKey marks exactly the open finding C09-literal-repeated-key: the step reads literal text in
+// which a hash repeats a key, and the parser returned the entries as written (both entries of the key).
+const tagLiteralRepeatedKey = "literal-repeated-key"
+
 func collViolation(h *collh.History) lib.Violation {
 	d := h.Diff
-	return lib.Violation{Clause: d.Clause, What: d.What, Input: collInput(h.Ops[:d.Step+1]),
-		Tags: []string{h.Ops[d.Step].Kind}}
+	o := h.Ops[d.Step]
+	tags := []string{o.Kind}
+	if o.Kind == "Parse" && d.Clause == "parse-literal" && o.P.HasRepeatedKey() &&
+		h.Outs[d.Step].Err == "" && h.Outs[d.Step].V.Equal(o.P) {
+		tags = append(tags, tagLiteralRepeatedKey)
+	}
+	return lib.Violation{Clause: d.Clause, What: d.What, Input: collInput(h.Ops[:d.Step+1]), Tags: tags}
 }
 
 func collTieable(h *collh.History) bool {
@@ -176,7 +185,7 @@ func collCorpus() [][]collh.Op {
 		{{Kind: "Build", I: 4, P: H(E(S("a"), I(1)))}, {Kind: "Slice", R: 0, I: 0, J: 2}},
 		{lit(abc), lit(H(E(S("b"), I(9)))), {Kind: "Merge", R: 0, X: 1}, {Kind: "Slice", R: 2, I: 0, J: 4}},
 		// merge: replace in place, append new
-		{lit(abc), lit(H(E(S("d"), I(4)), E(S("b"), I(9)), E(S("d"), I(5)))), {Kind: "Merge", R: 0, X: 1}},
+		{lit(abc), lit(H(E(S("d"), I(4)), E(S("b"), I(9)), E(S("e"), I(5)))), {Kind: "Merge", R: 0, X: 1}},
 	}
 }
 
